@@ -101,3 +101,45 @@ pub fn cbor_many(schema: &str, docs: &[RV]) -> Result<Vec<Obs>, String> {
       .collect(),
   )
 }
+
+
+/// The items as the crate's own decoder delivers them: preferred encoding -> decode_cbor.
+/// (Validating these instead of directly constructed values keeps the real decoder inside
+/// the checked path; an item the decoder rejects is passed through rv_to_impl.)
+pub fn decoded_items(docs: &[RV]) -> Vec<cddl::validator::cbor_value::Value> {
+  docs
+    .iter()
+    .map(|d| {
+      let b = crate::cborref::preferred(d);
+      match catch(|| cddl::validator::cbor_value::decode_cbor(&b)) {
+        Ok(Ok(v)) => v,
+        _ => rv_to_impl(d),
+      }
+    })
+    .collect()
+}
+
+pub fn cbor_many_values(schema: &str, docs: &[cddl::validator::cbor_value::Value]) -> Result<Vec<Obs>, String> {
+  let ast = match catch(|| cddl::cddl_from_str(schema, false)) {
+    Ok(Ok(a)) => a,
+    Ok(Err(e)) => return Err(e),
+    Err(p) => return Err(format!("PANIC in parser: {p}")),
+  };
+  Ok(
+    docs
+      .iter()
+      .map(|d| {
+        match catch(|| {
+          let mut cv = CBORValidator::new(&ast, d.clone(), None);
+          let r: Result<(), cddl::validator::cbor::Error<std::io::Error>> = cv.validate();
+          r
+        }) {
+          Ok(Ok(())) => Obs::Ok,
+          Ok(Err(cddl::validator::cbor::Error::Validation(_))) => Obs::Invalid,
+          Ok(Err(e)) => Obs::Other(format!("{e}")),
+          Err(p) => Obs::Panic(p),
+        }
+      })
+      .collect(),
+  )
+}
